@@ -33,7 +33,7 @@ def val(x):
 
 
 def P(name, kind, ann=True, default=None, alias_from=(), priv=False, alias=None):
-    return {"name": name, "kind": kind, "ann": ann, "hasdef": default is not None, "def": val(default) if default is not None else val(None),
+    return {"name": name, "kind": kind, "ann": ann, "viaparam": False, "hasdef": default is not None, "def": val(default) if default is not None else val(None),
             "keys": [name] + ([alias] if alias else []) + list(alias_from), "priv": priv, "_default": default, "_alias": alias}
 
 
@@ -59,12 +59,15 @@ def gen_sig(rng):
             sig.append(P(nm, kind, ann=rng.random() < 0.8, default=d, priv=priv,
                          alias_from=[nm + nm] if (kind == "pk" and not priv and rng.random() < 0.3) else (),
                          alias=(nm.upper() + "L") if (kind == "pk" and not priv and rng.random() < 0.25) else None))
+            # (a parameter whose name starts with an underscore is not a field: utype leaves it, and whatever its default is, alone)
+            sig[-1]["viaparam"] = d is not None and not priv and rng.random() < 0.4
     if va:
         sig.append(P("args", "va", ann=rng.random() < 0.7))
     for _ in range(nko):
         nm = next(names)
         sig.append(P(nm, "ko", ann=rng.random() < 0.8, default=rng.choice([None, 8]),
                      alias_from=[nm + nm] if rng.random() < 0.3 else (), alias=(nm.upper() + "L") if rng.random() < 0.2 else None))
+        sig[-1]["viaparam"] = sig[-1]["hasdef"] and rng.random() < 0.4
     if vk:
         sig.append(P("kw", "vk", ann=rng.random() < 0.7))
     return sig
@@ -90,6 +93,8 @@ def source(sig, ctx):
                     af = [k for k in p["keys"][1:] if k != p["_alias"]]
                     s += " = utype.Param(%s%s%s)" % (("%r, " % p["_default"]) if p["hasdef"] else "",
                                                       ("alias=%r, " % p["_alias"]) if p["_alias"] else "", ("alias_from=%r" % af) if af else "")
+                elif p["hasdef"] and decorated and p.get("viaparam"):
+                    s += " = utype.Param(%r)" % p["_default"]        # the default declared through Param: same meaning as the literal
                 elif p["hasdef"]:
                     s += " = %r" % p["_default"]
                 out.append(s)
